@@ -192,7 +192,7 @@ def run(ctx):
                 # the implementation accumulates the fractions k/C in float32; they are exact (and the table below
                 # describes what it evaluates) only when C is a power of two; otherwise only the oracle is applied
                 dyadic = sum(init) & (sum(init) - 1) == 0
-                tables[n] = (order, ps, init, cost_table(torch, utils, m, n, l, init, order) if ascending and dyadic else None)
+                tables[n] = (order, ps, init, cost_table(torch, utils, m, n, l, init, order) if dyadic else None)
             buf = io.StringIO()
             with contextlib.redirect_stdout(buf):
                 utils.optimize_prec_assignment(m, 'ne16')
